@@ -254,3 +254,19 @@ fn inverse_permute<S: Sample>(permutation: u32, rows: [&mut [S]; 3]) {
         _ => {}
     }
 }
+
+/// Verification hooks (`--cfg jxl_oxide_verif`): the scalar row kernels, re-exported for the harness crate.
+#[cfg(jxl_oxide_verif)]
+pub mod verif {
+    use crate::Sample;
+
+    pub fn inverse_row_i16_base<const TYPE: u32>(rows: &mut [&mut [i16]; 3]) {
+        super::inverse_row_i16_base::<TYPE>(rows)
+    }
+    pub fn inverse_row_i32_base<const TYPE: u32>(rows: &mut [&mut [i32]; 3]) {
+        super::inverse_row_i32_base::<TYPE>(rows)
+    }
+    pub fn inverse_permute<S: Sample>(permutation: u32, rows: [&mut [S]; 3]) {
+        super::inverse_permute(permutation, rows)
+    }
+}
